@@ -56,6 +56,10 @@ const eofLoopText = "wiresim: decoder keeps reading past the end of the input"
 
 func (eofLoop) String() string { return eofLoopText }
 
+// Len: the node decodes messages from a bytes.Buffer / bytes.Reader; a decoder
+// that asks its reader how much is left must get the same answer here.
+func (g *eofGuardReader) Len() int { return g.r.Len() }
+
 func (g *eofGuardReader) Read(p []byte) (int, error) {
 	n, err := g.r.Read(p)
 	if err == io.EOF {
